@@ -23,7 +23,7 @@ use std::time::Instant;
 #[cfg(target_arch = "x86_64")]
 use std::arch::x86_64::{
     _mm256_and_si256, _mm256_loadu_si256,
-    _mm256_set1_epi32, _mm256_srlv_epi32, _mm256_storeu_si256, __m256i,
+    _mm256_set1_epi32, _mm256_storeu_si256, __m256i,
 };
 
 // AVX-512 intrinsics (nightly-only feature)
@@ -1384,35 +1384,30 @@ impl<T: RadixSortable> AdvancedRadixSort<T> {
     unsafe fn count_digits_avx2_bmi2(&self, data: &[T], shift: usize, mask: u64, counts: &mut [usize]) -> Result<()> {
         // This is a simplified version - full SIMD implementation would be more complex
         // For generic types, we need to extract keys first
-        let mut keys: Vec<u64> = data.iter().map(|item| item.extract_key()).collect();
+        let keys: Vec<u64> = data.iter().map(|item| item.extract_key()).collect();
         
         let mut i = 0;
-        let shift_vec = _mm256_set1_epi32(shift as i32);
         let mask_vec = _mm256_set1_epi32(mask as i32);
 
         // Process 8 u64 values at a time using AVX2 (requires casting to u32)
         while i + 8 <= keys.len() {
-            // Load 8 u64 values as u32 (lower 32 bits)
+            // Shift in 64 bits first, then narrow: the digit (<= 32 bits wide) may lie anywhere
+            // in the 64-bit key, the low 32 bits of the unshifted key do not contain it
             // Use stack-allocated array instead of Vec to avoid heap allocation in hot loop
             let keys_u32: [u32; 8] = [
-                keys[i] as u32,
-                keys[i + 1] as u32,
-                keys[i + 2] as u32,
-                keys[i + 3] as u32,
-                keys[i + 4] as u32,
-                keys[i + 5] as u32,
-                keys[i + 6] as u32,
-                keys[i + 7] as u32,
+                (keys[i] >> shift) as u32,
+                (keys[i + 1] >> shift) as u32,
+                (keys[i + 2] >> shift) as u32,
+                (keys[i + 3] >> shift) as u32,
+                (keys[i + 4] >> shift) as u32,
+                (keys[i + 5] >> shift) as u32,
+                (keys[i + 6] >> shift) as u32,
+                (keys[i + 7] >> shift) as u32,
             ];
             let values = unsafe { _mm256_loadu_si256(keys_u32.as_ptr() as *const __m256i) };
 
-            // Shift and mask to extract digits
-            let shifted = if shift > 0 {
-                unsafe { _mm256_srlv_epi32(values, shift_vec) }
-            } else {
-                values
-            };
-            let digits = unsafe { _mm256_and_si256(shifted, mask_vec) };
+            // Mask to extract digits
+            let digits = unsafe { _mm256_and_si256(values, mask_vec) };
 
             // Extract digits and count them
             let mut digit_array = [0u32; 8];
